@@ -118,6 +118,21 @@ Definition expected_telemetry_args : list (str * str) :=
 Lemma telemetry_tie : gen_telemetry_args = expected_telemetry_args.
 Proof. vm_compute; reflexivity. Qed.
 
+(* _unpack_and_recover_state (HTTP continuation / exchange turn / cancel): after the call-state cache lookup -- hit, or
+   miss with the client's call token reopened -- the stream id of the resolved call is published unconditionally;
+   the model's [sid_of] gives a turn the id of its stream without looking at the cache *)
+Definition expected_recover_head : list str :=
+    [s "state_bytes, call_id = _open_cursor_token(token, app._token_key, _compute_aad(auth), app._token_ttl)";
+     s "now = time.time()";
+     s "resolved = app._call_state_cache.get(call_id, auth, now)";
+     s "if resolved is None:
+    resolved = _resolve_call_from_token(app, call_token, call_id, state_info, auth)
+    app._call_state_cache.put(call_id, auth, resolved, now)";
+     s "if resolved.stream_id:
+    _current_stream_id.set(resolved.stream_id)"].
+Lemma recover_tie : gen_recover_head = expected_recover_head.
+Proof. vm_compute; reflexivity. Qed.
+
 (* ---- the theorems over the regenerated schema and shape: these are the statements about the source ---- *)
 Theorem C34_source_schema_valid : forall (fresh : nat -> str) tr dbg,
   (forall n, fresh n <> [] /\ field_ok (s_props gen_schema) (s "stream_id", JStr (fresh n)) = true) ->
